@@ -1433,12 +1433,15 @@ protected:
         return finalCRLF + 2;
       }
 
-      // Skip chunk data + trailing \r\n
-      pos += chunkSize + 2;
-      if (pos > data.length())
+      // Skip chunk data + trailing \r\n. chunkSize is peer-controlled and
+      // pos + chunkSize + 2 can wrap, so compare against what is left
+      // (pos <= data.length() here).
+      std::size_t remaining = data.length() - pos;
+      if (chunkSize > remaining || remaining - chunkSize < 2)
       {
         return std::string::npos; // Need more data
       }
+      pos += chunkSize + 2;
     }
 
     return std::string::npos;
